@@ -110,7 +110,9 @@ impl<'a> Gen<'a> {
         if !self.local_ifaces.is_empty() && self.r.chance(1, 8) {
             // a path into the package being defined
             let l = self.local_ifaces[self.r.below(self.local_ifaces.len())].clone();
-            return format!("{SELF}/{l}");
+            // (the version of a path into the own package is ignored by discovery and resolution alike)
+            let v = ["", "", "@0.1.0", "@7.0.0"][self.r.below(4)];
+            return format!("{SELF}/{l}{v}");
         }
         (*self.r.pick(IFACE_PATHS)).to_string()
     }
